@@ -25,6 +25,23 @@ def model(ck):
         ck.inconclusive.append('mutant specification (pinned access controllers) not refuted by TLC: vacuity guard failed')
 
 
+def run_both(prop, inp, thorough):
+    """Every case lets the replica either use fresh options or reuse the options value of another database it opened
+    before; which cases do which alternates. The thorough tier runs the matrix both ways round."""
+    res = vlib.run_vh('auth', inp, tag=prop, timeout=900 if not thorough else 3000)
+    if thorough:
+        r2 = vlib.run_vh('auth', dict(inp, flip_reuse=True), tag=prop + '-flip', timeout=3000)
+        for v in r2.get('violations', []):
+            v['flip_reuse'] = True
+        for k in ('violations', 'inconclusive', 'notes'):
+            res[k] = res.get(k, []) + r2.get(k, [])
+        for k in ('behaviours', 'steps', 'comparisons'):
+            res[k] = res.get(k, 0) + r2.get(k, 0)
+        for k, v in r2.get('stats', {}).items():
+            res['stats'][k] = res['stats'].get(k, 0) + v
+    return res
+
+
 def c03(prop, tier):
     ck = Check(prop, tier)
     thorough = tier == 'thorough'
@@ -38,11 +55,11 @@ def c03(prop, tier):
            'stores': ['kv', 'log', 'doc']}
     if not thorough:
         inp['lists'] = ['explicit', 'wildcard', 'empty']
-    res = vlib.run_vh('auth', inp, tag=prop, timeout=900 if not thorough else 3000)
+    res = run_both(prop, inp, thorough)
 
     def payload(v):
         st, ls, rt, cl = v['behaviour'].split('/')
-        return {'command': 'auth', 'input': dict(inp, lists=[ls], routes=[rt], classes=[cl], stores=[st]), 'violation': v}
+        return {'command': 'auth', 'input': dict(inp, lists=[ls], routes=[rt], classes=[cl], stores=[st], flip_reuse=v.get('flip_reuse', False)), 'violation': v}
     ck.add_harness(res, payload, 'auth cases')
     n = res.get('stats', {}).get('cases', 0)
     for i in range(res.get('behaviours', 0)):
@@ -62,10 +79,10 @@ def c04(prop, tier):
                'when the specification says so; the genuine entry must still be accepted afterwards')
     model(ck)
     inp = {'property': prop, 'seed': SEED, 'stores': ['kv', 'log', 'doc']}
-    res = vlib.run_vh('auth', inp, tag=prop, timeout=900 if not thorough else 3000)
+    res = run_both(prop, inp, thorough)
 
     def payload(v):
-        return {'command': 'auth', 'input': inp, 'violation': v}
+        return {'command': 'auth', 'input': dict(inp, flip_reuse=v.get('flip_reuse', False)), 'violation': v}
     ck.add_harness(res, payload, 'tamper cases')
     for i in range(res.get('behaviours', 0)):
         ck.distinct.add(i)
